@@ -22,6 +22,9 @@ def run(ctx, db, tier):
     release_returns_owner(ctx, db, 'C08.release-returns-new-owner')
     C07.ownership_unique(ctx, db, 'C08.ownership-not-forgotten')
     C07.subscribe(ctx, db, 'C08.free-path-installs-doorman')
+    C07.private_fifo(ctx, db, 'C08.release-only-through-unlock')
+    from . import C02
+    C02.sync_waits(ctx, db, 'C08.blocking-lock-asks-once')
     atomic.check_roles(ctx, db, 'C08.request-links-visible', only_functions={'cocls::mutex::ready', 'cocls::mutex::unlock', 'cocls::mutex::build_queue', 'cocls::awaiter::subscribe'}, floor=4)
 
 
